@@ -749,6 +749,17 @@ orc_program_set_sampling_type (OrcProgram *program, int var,
   /* This doesn't do anything yet */
 }
 
+/* Returns FALSE (and records an error) when the instruction table is full */
+static int
+orc_program_has_insn_space (OrcProgram *program)
+{
+  if (program->n_insns >= ORC_N_INSNS) {
+    orc_program_set_error (program, "too many instructions");
+    return FALSE;
+  }
+  return TRUE;
+}
+
 /**
  * orc_program_append_ds:
  * @program: a pointer to an OrcProgram structure
@@ -764,6 +775,9 @@ orc_program_append_ds (OrcProgram *program, const char *name, int arg0,
     int arg1)
 {
   OrcInstruction *insn;
+
+  if (!orc_program_has_insn_space (program))
+    return;
 
   insn = program->insns + program->n_insns;
 
@@ -795,6 +809,9 @@ orc_program_append (OrcProgram *program, const char *name, int arg0,
     int arg1, int arg2)
 {
   OrcInstruction *insn;
+
+  if (!orc_program_has_insn_space (program))
+    return;
 
   insn = program->insns + program->n_insns;
 
@@ -830,6 +847,9 @@ orc_program_append_2 (OrcProgram *program, const char *name, unsigned int flags,
   OrcInstruction *insn;
   int args[4];
   int i;
+
+  if (!orc_program_has_insn_space (program))
+    return;
 
   insn = program->insns + program->n_insns;
 
@@ -986,6 +1006,9 @@ orc_program_append_str_n (OrcProgram *program, const char *name,
   int i;
   int expected_args = 0;
 
+  if (!orc_program_has_insn_space (program))
+    return -1;
+
   insn = program->insns + program->n_insns;
 
   insn->line = program->current_line;
@@ -1064,6 +1087,9 @@ orc_program_append_ds_str (OrcProgram *program, const char *name,
 {
   OrcInstruction *insn;
 
+  if (!orc_program_has_insn_space (program))
+    return;
+
   insn = program->insns + program->n_insns;
 
   insn->opcode = orc_opcode_find_by_name (name);
@@ -1083,6 +1109,9 @@ orc_program_append_dds_str (OrcProgram *program, const char *name,
     const char *arg1, const char *arg2, const char *arg3)
 {
   OrcInstruction *insn;
+
+  if (!orc_program_has_insn_space (program))
+    return;
 
   insn = program->insns + program->n_insns;
 
